@@ -15,6 +15,7 @@ RULE = (
     "(a) own volume factor: roots fabric(6) x regime(2) x assemblage ordering(2) x fraction pair(6 incl. both end members) "
     "x <=1 deviation over (texture, volumes, n_grains, parameter set); ALL update sequences to depth 2 "
     "with a lock-step twin = the same mineral run single-phase with M* replaced by phi_own.M*; "
+    "the same with the regime supplied by a get_regime callable to minerals whose stored regime is a null one; "
     "(b) twin = assemblage and fraction lists permuted together; (c) pydrex.update_all with the "
     "mineral list in every order (2 and 3 minerals; dislocation and diffusion regimes), every mineral and the returned F compared, "
     "and against every mineral updated on its own from the same starting F at rtol 1e-10 (bound 1e-6); "
@@ -57,6 +58,14 @@ def gen_cases(tier, seed):
                 if ndev <= 1 or (fi != 0 and order != "own_first" and ndev <= 2):
                     keys.append(dict(k, part="single", frac=fi, order=order, depth=depth))
                     keys.append(dict(k, part="perm", frac=fi, order=order, depth=depth))
+    # the regime supplied by a get_regime callable (dislocation creep) to a mineral whose stored
+    # regime is a non-recrystallising one (e.g. a pathline crossing out of a diffusion-creep
+    # region): seed C08g, own fraction looked up under a guard on the STORED regime
+    for fab in alph.FABRICS:
+        for fi in (0, 2, 3):
+            for order in ("own_first", "own_last"):
+                for stored in ("diff", "minvisc"):
+                    keys.append(dict(part="single", fab=fab, reg=stored, tex="random", vol="uniform", ng=5, prm="chi0", frac=fi, order=order, depth=depth, getreg="yield" if fi == 3 else "disl"))
     for fi in range(len(FRACS)):
         for nm in (2, 3):
             for flp in range(4):
@@ -250,7 +259,11 @@ def run_twin(key):
         if own not in (0.5, 1.0) and not np.array_equal(a.fractions[-1], a.fractions[-2]):
             res["nontrivial"].append(H.canon(child))
 
-    obs = H.twin_explore(res, key, prm_a, prm_b, root, H.STEP_LETTERS, key["depth"], H.flow, H.flow, lambda t: t, compare)
+    skw = None
+    if key.get("getreg"):
+        rg = H.REGIMES[key["getreg"]]
+        skw = dict(get_regime=lambda t, x, rg=rg: rg)
+    obs = H.twin_explore(res, key, prm_a, prm_b, root, H.STEP_LETTERS, key["depth"], H.flow, H.flow, lambda t: t, compare, solver_kw=skw)
     res["outcomes"] += obs[:40]
     res["obs"] = digest(*obs)
     res["sample"] = {"case": key, "own_fraction": own, "states": res["states"], "transitions": res["trans"]}
